@@ -116,7 +116,7 @@ def LoopSpec (src : List Nat) (off k : Nat) (r : Nat × List Ev) : Prop :=
   Monotone (off :: readOffs r.2) ∧ lastD' off (readOffs r.2) ≤ r.1 ∧
     numReads r.2 + off ≤ r.1 + k ∧ ReadsInBounds src r.2
 
-theorem fastLoop1_spec (p : Nat → Bool) (src : List Nat) (fuel off : Nat) :
+theorem fastLoop1_trace (p : Nat → Bool) (src : List Nat) (fuel off : Nat) :
     LoopSpec src off 1 (fastLoop1 p src fuel off) := by
   induction fuel generalizing off with
   | zero => simp [fastLoop1, LoopSpec, readOffs, numReads, Monotone, lastD', ReadsInBounds]
@@ -184,7 +184,7 @@ theorem readChunk_none {src : List Nat} {o n : Nat} (h : readChunk src o n = non
   · cases h
   · assumption
 
-theorem fastLoop8_spec (p : Nat → Bool) (src : List Nat) (fuel off : Nat) :
+theorem fastLoop8_trace (p : Nat → Bool) (src : List Nat) (fuel off : Nat) :
     LoopSpec src off 2 (fastLoop8 p src fuel off) := by
   induction fuel generalizing off with
   | zero => simp [fastLoop8, LoopSpec, readOffs, numReads, Monotone, lastD', ReadsInBounds]
@@ -200,7 +200,7 @@ theorem fastLoop8_spec (p : Nat → Bool) (src : List Nat) (fuel off : Nat) :
       · exact loopSpec_cons (by omega) (by omega) (ih (off + 8)) (by simpa using hbd)
     · next hn =>
       have hbd := readChunk_none hn
-      exact loopSpec_cons (Nat.le_refl _) (by omega) (fastLoop1_spec p src _ off) (by simpa using hbd)
+      exact loopSpec_cons (Nat.le_refl _) (by omega) (fastLoop1_trace p src _ off) (by simpa using hbd)
 
 theorem setupEv_readOffs (sd : StateData) (off : Nat) (ctx : Option Nat) (tokEnd : Nat) :
     readOffs (setupEv sd off ctx tokEnd).2 = [] := by
@@ -260,7 +260,7 @@ def visitK (g : Graph) (src : List Nat) (isPrefix : Bool) (start : Nat)
     | none => (.stop (.action off ctx tokEnd), tr)
   | none =>
     let tr := tr ++ [.read off 1 false]
-    if !sd.normal.isEmpty && isPrefix then (.stop .needMore, tr ++ [.end start])
+    if (!sd.normal.isEmpty || sd.eoi.isSome) && isPrefix then (.stop .needMore, tr ++ [.end start])
     else if st == g.root && start == off then (.stop .endOfInput, tr)
     else match sd.eoi with
       | some t => (.goto t (off+1) ctx tokEnd, tr)
@@ -322,7 +322,7 @@ theorem visit_spec (g : Graph) (src : List Nat) (isPrefix : Bool) (start st off 
   rw [visit_eq]
   apply visitK_spec
   · split
-    · exact fastLoop8_spec _ _ _ _
+    · exact fastLoop8_trace _ _ _ _
     · simp [LoopSpec, readOffs, numReads, Monotone, lastD', ReadsInBounds]
   · exact setupEv_readOffs _ _ _ _
   · exact setupEv_inBounds _ _ _ _ _
